@@ -131,6 +131,16 @@ def validate_request(request, json_config):
 
     # Get the request ID
     rpcid = request.get("id", None)
+    if isinstance(rpcid, float) and (
+        rpcid != rpcid or rpcid in (float("inf"), float("-inf"))
+    ):
+        # Not a number or beyond the range of a float (e.g. 1e999):
+        # such an ID can't be written back in a JSON response
+        fault = Fault(
+            -32600, "Invalid request ID: {0}".format(rpcid), config=json_config
+        )
+        _logger.warning("Invalid request content: %s", fault)
+        return fault
 
     # Check request version
     version = get_version(request)
